@@ -69,7 +69,7 @@ def make_obj(rng, typ, colors, types=None, depth=0):
     if typ.__name__ == 'GoalExit':
         return typ(rng.choice(colors))
     if typ is Box:
-        inner = [t for t in (types or GRID_TYPES) if t is not Box or depth < 2]
+        inner = [t for t in (types or GRID_TYPES) if (t is not Box or depth < 2) and t.__name__ not in ('NoneGridObject', 'Hidden')]
         if not inner:
             inner = [Box]
         t = rng.choice(inner)
